@@ -47,10 +47,10 @@ def token_ok(w, domain):
         return '\\' not in w
     if domain == 'auto':            # C08: statement's domain + CCGbank repair patterns of read_auto
         return '\\' not in w and not w.endswith(')[conj]') and not w.endswith('][conj]') and w != '((S[b]\\NP)/NP)/'
-    if domain == 'ptb':             # round brackets only as whole tokens
+    if domain == 'ptb':             # a whole-token bracket is escaped; otherwise no '(' at the start and no ')' at the end
         if '\\' in w:
             return False
-        return w in ('(', ')') or ('(' not in w and ')' not in w)
+        return w in ('(', ')') or (not w.startswith('(') and not w.endswith(')'))
     if domain == 'ja':
         return not any(c in w for c in '/{}\\') and w not in BRACKET_WORDS
     if domain == 'xml':
@@ -176,7 +176,7 @@ def index(lang):
     return GrammarIndex(lang)
 
 
-def licensed_tree(rng, lang, token_fn, max_leaves=9, want_label=None, tokens=None):
+def licensed_tree(rng, lang, token_fn, max_leaves=9, want_label=None, tokens=None, hard_max=None):
     """random grammar-licensed derivation; returns depccg Tree (nodes carry the licensing result's label/symbol/head)"""
     from depccg.tree import Tree
     ix = index(lang)
@@ -243,6 +243,8 @@ def licensed_tree(rng, lang, token_fn, max_leaves=9, want_label=None, tokens=Non
                 root = rng.choice(ix.roots)
                 t = expand(root, 0, True)
             if tokens is not None and len(toks) != len(tokens):
+                continue
+            if hard_max is not None and len(toks) > hard_max:
                 continue
             return t
         except (LookupError, RecursionError, IndexError) as e:
